@@ -15,8 +15,8 @@ theorem flagsOk_iff (w : World) : FlagsOk w ↔ expected w.stack = some (w.colle
 @[simp] theorem expected_callFin (a0) (rest : List Frame) : expected (Frame.callFin a0 :: rest) = expected rest := expected_cons_neutral _ _ rfl
 @[simp] theorem expected_collectPass  (rest : List Frame) : expected (Frame.collectPass  :: rest) = expected rest := expected_cons_neutral _ _ rfl
 @[simp] theorem expected_adjustAfter  (rest : List Frame) : expected (Frame.adjustAfter  :: rest) = expected rest := expected_cons_neutral _ _ rfl
-@[simp] theorem expected_newAlloc (a0 a1 a2) (rest : List Frame) : expected (Frame.newAlloc a0 a1 a2 :: rest) = expected rest := expected_cons_neutral _ _ rfl
-@[simp] theorem expected_newCyclicAlloc (a0 a1 a2 a3 a4) (rest : List Frame) : expected (Frame.newCyclicAlloc a0 a1 a2 a3 a4 :: rest) = expected rest := expected_cons_neutral _ _ rfl
+@[simp] theorem expected_newAlloc (a0 a1) (rest : List Frame) : expected (Frame.newAlloc a0 a1 :: rest) = expected rest := expected_cons_neutral _ _ rfl
+@[simp] theorem expected_newCyclicAlloc (a0 a1 a2 a3) (rest : List Frame) : expected (Frame.newCyclicAlloc a0 a1 a2 a3 :: rest) = expected rest := expected_cons_neutral _ _ rfl
 @[simp] theorem expected_newCyclicEnd (a0 a1 a2 a3) (rest : List Frame) : expected (Frame.newCyclicEnd a0 a1 a2 a3 :: rest) = expected rest := expected_cons_neutral _ _ rfl
 @[simp] theorem expected_regInsert (a0 a1 a2 a3) (rest : List Frame) : expected (Frame.regInsert a0 a1 a2 a3 :: rest) = expected rest := expected_cons_neutral _ _ rfl
 @[simp] theorem expected_mapAlloc (a0) (rest : List Frame) : expected (Frame.mapAlloc a0 :: rest) = expected rest := expected_cons_neutral _ _ rfl
@@ -209,9 +209,11 @@ theorem stepFrame_flagsOk (c : Cfg) (w0 : World) (f : Frame)
     | nil =>
       simp only [stepFrame]
       have hc := foldl_free_ctl c N w0
-      rw [flagsOk_iff]
-      simp only [hc.stack, hc.collecting, hc.finalizing]
-      simp_all
+      split
+      · rw [flagsOk_iff]; simp_all [expected, Frame.flags]
+      · rw [flagsOk_iff]
+        simp only [hc.stack, hc.collecting, hc.finalizing]
+        simp_all
   | _ =>
     have h0 : FlagsOk w0 := by show expected w0.stack = some w0.flags; simpa using h
     clear h
